@@ -112,7 +112,34 @@ def chunk_case(rng, ops_fn):
     return f"{w} {rng.choice([0, 1])} m{mx} L{','.join(map(str, lens))} " + " ".join(ops)
 
 
+EPILOGUE = ["tc", "tc", "dcpL", "dpcL", "dcpL"]   # = `recover` of Props/C42 (C42_progress)
+
+
+def with_epilogue(rng, case):
+    """about half of the fault-script cases end with the fault-free recovery continuation; the oracle then checks
+    the conclusion of C42_progress on the REAL trace"""
+    if any(o[:2] in ("fw", "ff") for o in case.split()[2:]) or rng.random() < 0.5:
+        return case
+    return case + " " + " ".join(EPILOGUE)
+
+
 def gen_cases(rng, tier):
+    return [with_epilogue(rng, c) for c in _gen_cases(rng, tier)] + PROGRESS
+
+
+def search_cases(rng, tier):
+    return [with_epilogue(rng, c) for c in _search_cases(rng, tier)] + PROGRESS
+
+
+PROGRESS = [
+    # the LAST SequencedMessage is lost while the producer is idle: only silence -> re-register -> timeout Request recovers it
+    "4 0 dcp0 dpc0 dcp0 up up dpc0 uc1 dcp0 up up xpc0 " + " ".join(EPILOGUE),
+    "2 1 dcp0 dpc0 dcp0 up up xpc0 " + " ".join(EPILOGUE),
+    "4 0 m32 L100 dcp0 dpc0 dcp0 up up dpc0 dpc0 dpc0 xpc0 " + " ".join(EPILOGUE),
+]
+
+
+def _gen_cases(rng, tier):
     n = 260 if tier == "quick" else 4000
     cases = [CLEAN] + CHUNKED
     for _ in range(n // 3):
@@ -130,7 +157,7 @@ def gen_cases(rng, tier):
     return cases
 
 
-def search_cases(rng, tier):
+def _search_cases(rng, tier):
     cases = []
     for _ in range(500 if tier == "quick" else 2000):
         cases.append(chunk_case(rng, lambda: gen_script(rng, rng.choice([60, 120, 240]), rng.choice([0.05, 0.2, 0.35]), rng.choice(["fair", "pcheavy"]))))
@@ -164,11 +191,47 @@ def deliveries(impl):
     return out
 
 
+PDIG = re.compile(r"P\{cur=(\d+) conf=(\d+) pers=\d+ unc=\[([^\]]*)\].* f=(\d)\}")
+CDIG = re.compile(r"C\{w=(\d+) .* conf=(\d+) upto=(\d+) .* f=(\d)\}")
+SENTSEQ = re.compile(r"SC?\(\d+,\d+,(\d+),")
+
+
+def progress_oracle(case, impl):
+    """C42_progress on the real trace: after the fault-free continuation tc tc dcpL dpcL dcpL the producer
+    controller is alive, has adopted the consumer controller's confirmation watermark, and the oldest message it
+    still holds unconfirmed has been re-sent in that last step."""
+    ops = [o for o in case.split()[2:] if not (o[0] in "mL" and o[1:2].isdigit())]
+    if ops[-5:] != EPILOGUE:
+        return None
+    segs = impl.split(";")
+    if len(segs) != len(ops) + 1 or any(re.search(r"[PC]\{[^}]* f=1\}", s) for s in segs[:-5]):
+        return None            # a controller had already failed terminally (e.g. message larger than the window)
+    last, prev = segs[-1], segs[-2]
+    mp, mc = PDIG.search(last), CDIG.search(prev)
+    if not mp or not mc:
+        return f"progress: the recovery continuation did not reach the producer controller (last steps: {prev[:60]!r}; {last[:60]!r})"
+    cur, pconf, unc, pf = int(mp.group(1)), int(mp.group(2)), mp.group(3), mp.group(4)
+    cconf = int(mc.group(2))
+    if pf == "1":
+        return "progress: the producer controller failed during the recovery continuation"
+    if pconf != cconf:
+        return f"progress: after recovery the producer's confirmedSeq={pconf} differs from the consumer's {cconf}"
+    if unc:
+        head = int(unc.split(",")[0].split(":")[1])
+        sent = [int(x) for tok in last.split() if tok.startswith("pc:") for x in SENTSEQ.findall(tok)]
+        if head not in sent:
+            return f"progress: the oldest unconfirmed message seq={head} was not re-sent by the recovery continuation (sent {sent})"
+    return None
+
+
 def oracle(case, impl, judge):
     if impl.startswith("CRASH") or impl.startswith("panic") or impl.startswith("setup-error"):
         return "harness failed: " + impl[:200]
     if any(o[:2] in ("fw", "ff") for o in case.split()[2:]):
         return None    # forged messages: differential only, the links are not faithful (see Driver/C42c.lean)
+    pr = progress_oracle(case, impl)
+    if pr:
+        return pr
     if judge is not None:
         return judge_verdict(judge, ("order:",))
     # mirror of the order part of Spec.C42.Mon (used only when the Lean driver is unavailable)
